@@ -4,6 +4,7 @@ import (
 	"bytes"
 	"fmt"
 
+	"github.com/oasisprotocol/ed25519"
 	rt "github.com/oasisprotocol/ed25519/internal/zzverifrt"
 )
 
@@ -40,6 +41,25 @@ func jobC13x(c *rt.Ctx) {
 				c.Violation(fmt.Sprintf("C13 x25519 basepoint-reslice wantErr=%v", wantErr), fmt.Sprintf("X25519(scalar, Basepoint[%d:%d]): out=%x err=%v panic=%v", lo, hi, out, err, pv), map[string]interface{}{"lo": lo, "hi": hi})
 			}
 		}
+	}
+	// key conversion leaves its argument intact, decodable or not (y scan 0..511 x sign)
+	c.Require("convert-intact")
+	for y := 0; y < 512; y++ {
+		if !c.Take() {
+			continue
+		}
+		for sgn := 0; sgn < 2; sgn++ {
+			k := make([]byte, 32)
+			k[0], k[1], k[31] = byte(y), byte(y>>8), byte(sgn)<<7
+			cp := append([]byte{}, k...)
+			EdPublicKeyToX25519(ed25519.PublicKey(k))
+			c.Step(1)
+			if !bytes.Equal(k, cp) {
+				c.Violation("C13 EdPublicKeyToX25519 modifies its argument", fmt.Sprintf("EdPublicKeyToX25519 changed the caller's key: %x -> %x", cp, k), map[string]interface{}{"before": fmt.Sprintf("%x", cp), "after": fmt.Sprintf("%x", k)})
+			}
+		}
+		c.Class("convert-intact")
+		c.Distinct(fmt.Sprintf("ci %d", y), true)
 	}
 	for sl := -1; sl <= 40; sl++ {
 		for pl := -1; pl <= 40; pl++ {
